@@ -50,8 +50,8 @@ func runC14(c *Ctx) {
 		ac := jwt.NewAccountClaims(kr.acct[0])
 		type want struct {
 			key, role, desc string
-			tmpl           string
-			zeroLimit      bool
+			tmpl            string
+			zeroLimit       bool
 		}
 		wants := map[string]*want{}
 		nk := c.R.Intn(7)
